@@ -110,7 +110,7 @@ PROPS = {
                 "exactly, 6.5 sigma otherwise, extreme draw vectors); n_shots mutated between calls; earlier calls repeated later with the "
                 "same seed must return the same result. Distinct = (mode, backend, width, size class, initial state?, bias) tuples; "
                 "non-trivial = run with >=3 calls on >=2 backends or >=1 biased draw.",
-        "probes": ["C01.point_mass_sampled", "C01.same_call_repeated_after_other_calls", "C01.circuit_object_reused", "C01.circuit_object_reused:sympy", "C01.circuit_object_read_between_calls",
+        "probes": ["C01.point_mass_sampled", "C01.same_call_repeated_after_other_calls", "C01.circuit_object_reused", "C01.sympy_with_shot_budget", "C01.circuit_object_reused:sympy", "C01.circuit_object_read_between_calls",
                    "C01.circuit_object_modified_in_place_between_calls", "C01.n_shots_multiple_of_chunk_size"],
         "components_real": ["Backend.simulate, CirqSimulator, SympySimulator, translate_c_to_cirq / _sympy, _statevector_to_frequencies + scipy rv_discrete, cirq, sympy"],
         "components_stub": ["ShotOnlyDevice(Backend): reference simulator + multinomial draw from the seam; nothing is concluded about a real device"],
